@@ -220,3 +220,17 @@ Definition grad_flat (d2 : nat) pts props rho0 target (N i : nat) : list Z :=
   flatG (flat_map (fun a => flat_map (fun b => flat_map (fun c => map (fun e =>
      objective d2 pts (replace_nth i (unit_mat d2 b a, unit_mat d2 e c) props) rho0 target N)
      (seq 0 d2)) (seq 0 d2)) (seq 0 d2)) (seq 0 d2)).
+
+(* ---- mean-field field update on binary64 (C09, C15) ----------------------------------------- *)
+From OQ Require Import Model.MeanField.
+Definition fhalf (x : float) : float := (x / 2)%float.
+Definition fnat (n : nat) : float := of_Z (Z.of_nat n).
+(* field_eom(t, states, a) = alpha + beta*t + gamma*a, evaluated left to right *)
+Definition feom (alpha beta gamma : float) (t : float) (k : nat) (a : float) : float :=
+  ((alpha + beta * t) + gamma * a)%float.
+Definition flat_calls (cs : list (float * nat * float)) : list Z :=
+  flat_map (fun c => let '(t, k, a) := c in flat_fbits t ++ [Z.of_nat k] ++ flat_fbits a) cs.
+Definition meanfield_flat (which : bool) (alpha beta gamma start dt a0 : float) (N : nat) : list Z :=
+  let r := if which then mft float PrimFloat.add PrimFloat.mul fhalf fnat (feom alpha beta gamma) start dt N 0 a0
+           else cdwf float PrimFloat.add PrimFloat.mul fhalf fnat (feom alpha beta gamma) start dt N a0 in
+  flat_map flat_fbits (fst r) ++ [888%Z] ++ flat_calls (snd r).
